@@ -1218,3 +1218,113 @@ func ruleR12_6(r *Run) {
 	}
 	r.check(n >= 2, "labelmap.SplitSupervoxel:supplied-label-parameters", fmt.Sprintf("%d optional label parameters", n), "the optional label parameters of SplitSupervoxel were not found", w.fpos(f))
 }
+
+func init() {
+	register(ruleDef{ID: "R16.7", Prop: "C16", Tier: "quick", Floor: 2,
+		Title: "the sorted id list of the in-memory database is searched with a monotone predicate (sort.Search needs false…true; an equality predicate makes the binary search miss present ids), and a database filled by plain appends is sorted before it is used",
+		Fn:    ruleR16_7})
+}
+
+func ruleR16_7(r *Run) {
+	w := r.W
+	n := 0
+	for _, f := range w.RepoFuncs {
+		if len(f.Blocks) == 0 || strings.HasSuffix(w.fposFile(f), "_test.go") {
+			continue
+		}
+		k := 0
+		for _, c := range calls(f) {
+			callee := c.Common().StaticCallee()
+			if callee == nil || callee.Pkg == nil || callee.Pkg.Pkg.Path() != "sort" || callee.Name() != "Search" {
+				continue
+			}
+			mc, ok := c.Common().Args[1].(*ssa.MakeClosure)
+			if !ok {
+				continue
+			}
+			cl, ok := mc.Fn.(*ssa.Function)
+			if !ok {
+				continue
+			}
+			n++
+			k++
+			bad := ""
+			for _, b := range cl.Blocks {
+				ret, ok := b.Instrs[len(b.Instrs)-1].(*ssa.Return)
+				if !ok || len(ret.Results) != 1 {
+					continue
+				}
+				if bo, ok := ret.Results[0].(*ssa.BinOp); ok && (bo.Op == token.EQL || bo.Op == token.NEQ) {
+					bad = w.pos(bo.Pos())
+				}
+			}
+			r.check(bad == "", fmt.Sprintf("%s:sort.Search#%d:monotone-predicate", fname(f), k), "the predicate is an ordering comparison",
+				"sort.Search is given an equality predicate: binary search needs a predicate that is false for a prefix and true for the rest, so a present element is usually not found (here: a deleted annotation's id stays in the in-memory id list, and keys/keyrange of the head list it while the stored versions do not)", firstNonEmpty(bad, w.pos(c.Pos())))
+		}
+	}
+	r.check(n >= 2, "repo:sort.Search-calls", fmt.Sprintf("%d sort.Search predicates examined", n), "no sort.Search call found: rule needs review", "-")
+	// plain appends to memdb.ids (outside the sorted-insert helper) are followed by a sort before a success return
+	for _, f := range w.RepoFuncs {
+		if relPkg(pkgPathOf(f)) != "datatype/neuronjson" || len(f.Blocks) == 0 || f.Parent() != nil || strings.HasSuffix(w.fposFile(f), "_test.go") {
+			continue
+		}
+		// does f (or a callee in the package, one level) append to ids without searching?
+		appends := func(g *ssa.Function) bool {
+			hasSearch := false
+			for _, c := range calls(g) {
+				if cal := c.Common().StaticCallee(); cal != nil && cal.Pkg != nil && cal.Pkg.Pkg.Path() == "sort" {
+					hasSearch = true
+				}
+			}
+			if hasSearch {
+				return false
+			}
+			for _, b := range g.Blocks {
+				for _, in := range b.Instrs {
+					st, ok := in.(*ssa.Store)
+					if !ok {
+						continue
+					}
+					fa, ok := st.Addr.(*ssa.FieldAddr)
+					if !ok {
+						continue
+					}
+					if nm, _, _ := fieldName(fa); nm != "ids" || !typeIs(fa.X.Type(), "datatype/neuronjson", "memdb") {
+						continue
+					}
+					if c, ok := st.Val.(*ssa.Call); ok {
+						if bi, ok := c.Call.Value.(*ssa.Builtin); ok && bi.Name() == "append" {
+							return true
+						}
+					}
+				}
+			}
+			return false
+		}
+		var appendCalls []ssa.Instruction
+		for _, c := range calls(f) {
+			if cal := c.Common().StaticCallee(); cal != nil && inRepo(cal) && len(cal.Blocks) > 0 && appends(cal) {
+				appendCalls = append(appendCalls, c)
+			}
+		}
+		if len(appendCalls) == 0 {
+			continue
+		}
+		isSort := func(in ssa.Instruction) bool {
+			c, ok := in.(ssa.CallInstruction)
+			if !ok {
+				return false
+			}
+			cal := c.Common().StaticCallee()
+			return cal != nil && cal.Pkg != nil && cal.Pkg.Pkg.Path() == "sort" && (cal.Name() == "Slice" || cal.Name() == "Sort" || cal.Name() == "SliceStable")
+		}
+		var p []ssa.Instruction
+		for _, ac := range appendCalls {
+			if q := findPath(f, ac, isSort, func(in ssa.Instruction) bool { _, isRet := in.(*ssa.Return); return isRet && successExit(in) }, nil); q != nil {
+				p = q
+			}
+		}
+		r.check(p == nil, fname(f)+":ids-sorted-after-bulk-append", "after filling the id list by plain appends every success exit has sorted it",
+			"a database whose id list is filled by plain appends is handed out without sorting the list: stored key order is lexicographic on the decimal string, so range reads (which binary-search the list) return wrong keys after a restart", w.fpos(f), w.renderPath(p)...)
+	}
+}
